@@ -23,4 +23,6 @@ var _ = strconv.Itoa
 
 // io.ReadAll: the bytes of the reader, in a fresh slice.
 //@ ext io.ReadAll(r io.Reader) (b []byte, err error)
+//@   modifies ghost_rcontent(r)
 //@   ensures err == nil ==> vcFresh(b) || len(b) == 0
+//@   ensures err == nil ==> vcTokBytes(b) == old(ghost_rcontent(r))
